@@ -300,7 +300,7 @@ theorem attestation_panic_propagates (env : Env) (it : Nat)
   att_panic env it hp h
 
 /-- the same for ANY state type, ANY writes of every leaf and ANY failure position `n` inside the handler's writes -/
-theorem attestation_failure_outcome_denote {S : Type} (eff : Eff S) (cond : String → Nat → Bool) (iters : Nat → Nat)
+theorem attestation_failure_outcome_denote {S : Type} (eff : Eff S) (cond : String → Nat → Bool) (iters : Nat → Nat → Nat)
     (it n : Nat) (s : S) (hp : ∀ name i, (eff name i).panics = false)
     (hfail : (eff "k.AttestationHandler" it).failAt = some n) :
     denote eff (run (eff.env cond iters) attestationProg it).2.outer s = denote eff (attDesignated it) s := by
@@ -318,7 +318,7 @@ theorem bridge_call_in_failure_outcome_prog (env : Env) (hp : NoPanic env)
     (run env executeClaimProg).1 = .ret true ∧ (run env executeClaimProg).2.outer = bciDesignated env :=
   bci_fail env hp hs ha hfail
 
-theorem bridge_call_in_failure_outcome_denote {S : Type} (eff : Eff S) (cond : String → Nat → Bool) (iters : Nat → Nat)
+theorem bridge_call_in_failure_outcome_denote {S : Type} (eff : Eff S) (cond : String → Nat → Bool) (iters : Nat → Nat → Nat)
     (s : S) (hp : ∀ name i, (eff name i).panics = false)
     (hs : (eff "k.bankKeeper.SendCoins" 0).failAt = none) (ha : (eff "k.AddOutgoingBridgeCall" 0).failAt = none)
     (hfail : 1 ∈ (run (eff.env cond iters) executeClaimProg).2.failed) :
@@ -327,22 +327,79 @@ theorem bridge_call_in_failure_outcome_denote {S : Type} (eff : Eff S) (cond : S
     (by simp [Eff.env, hs]) (by simp [Eff.env, ha]) hfail
   rw [h.2]
 
-/-- **passed proposal, a message fails** — at any index, by a returned error or by a panic (recovered by
-`safeExecuteHandler` into the NAMED result): the clause ends with `Status = Failed`, `SetProposal`, and the separately
-tolerated hook; no handler write reaches the outer context -/
-theorem proposal_failure_outcome_prog (env : Env) (hp : ∀ n i, n ≠ "handler" → env.panics n i = false)
-    (hset : env.ok "keeper.SetProposal" 0 = true) (hfail : 1 ∈ (run env govProg).2.failed) :
-    (run env govProg).1 = .ret true ∧ (run env govProg).2.outer = govDesignated env :=
-  gov_fail env hp hset hfail
+/-- **a block of passed / rejected / expedited proposals** (`EndBlocker`'s walk over the active proposals whose voting
+period ended, ANY number of proposals in the same block, in ANY order): the walk returns nil and the outer context
+carries, proposal after proposal, exactly that proposal's own contribution `govContribution env p` — which depends on
+proposal `p` alone.  The cache for the messages is opened inside the per-proposal body, so what a failed proposal wrote
+on it is dropped whatever precedes or follows it. -/
+theorem proposal_block_outcome_total (env : Env) (hok : GovOuterOk env) :
+    (run env govProg).1 = .ret true ∧ (run env govProg).2.outer = govBlock env (env.iters 1 0) :=
+  gov_block env hok
 
-theorem proposal_failure_outcome_denote {S : Type} (eff : Eff S) (cond : String → Nat → Bool) (iters : Nat → Nat)
-    (s : S) (hp : ∀ name i, name ≠ "handler" → (eff name i).panics = false)
-    (hset : (eff "keeper.SetProposal" 0).failAt = none)
-    (hfail : 1 ∈ (run (eff.env cond iters) govProg).2.failed) :
-    denote eff (run (eff.env cond iters) govProg).2.outer s = denote eff (govDesignated (eff.env cond iters)) s := by
-  have h := proposal_failure_outcome_prog (eff.env cond iters) (fun name i hn => hp name i hn)
-    (by simp [Eff.env, hset]) hfail
-  rw [h.2]
+/-- **passed proposal `p` of the block, a message fails** — at ANY message index (first, middle, last), by a returned
+error or by a panic (recovered by `safeExecuteHandler` into the NAMED result): the proposal contributes its
+bookkeeping, `Status = Failed`, `SetProposal` and the separately tolerated hook, and no handler write -/
+theorem proposal_failure_outcome_prog (env : Env) (p : Nat)
+    (hpass : env.cond "EndBlocker: passes #2" p = true) (hmsgs : env.ok "proposal.GetMsgs" p = true)
+    (hfail : ¬ GovAllOkP env p (env.iters 2 p)) :
+    govContribution env p =
+      [⟨"keeper.Tally", p, []⟩] ++
+      (if env.cond "EndBlocker: proposal.Expedited" p = false ∨ env.cond "EndBlocker: passes" p = true then
+         (if env.cond "EndBlocker: burnDeposits" p = true then [⟨"keeper.DeleteAndBurnDeposits", p, []⟩]
+          else [⟨"keeper.RefundAndDeleteDeposits", p, []⟩])
+       else []) ++
+      [⟨"keeper.ActiveProposalsQueue.Remove #2", p, []⟩, ⟨"set proposal.Status = v1.StatusFailed #2", p, []⟩,
+       ⟨"keeper.SetProposal", p, []⟩] ++
+      (if env.ok "keeper.Hooks().AfterProposalVotingPeriodEnded" p = true then
+        [⟨"keeper.Hooks().AfterProposalVotingPeriodEnded", p, []⟩] else []) := by
+  simp [govContribution, hpass, hmsgs, hfail]
+
+/-- the quantifier of the property, literally: the failure provoked at ANY message index `k` of ANY proposal `p` -/
+theorem proposal_failure_at_any_index (env : Env) (p k : Nat) (hk : k < env.iters 2 p)
+    (hfail : env.ok "handler" (p * env.stride + k) = false ∨ env.panics "handler" (p * env.stride + k) = true) :
+    ¬ GovAllOkP env p (env.iters 2 p) := by
+  intro hall
+  have := hall k hk
+  rcases hfail with hf | hf <;> simp [hf] at this
+
+/-- **no handler write of a failed proposal survives the block**: every handler write on the outer context after the
+whole block belongs to a proposal ALL of whose messages succeeded (and lies in that proposal's own index range) -/
+theorem proposal_failed_contributes_no_handler_write (env : Env) (hok : GovOuterOk env) (t : Tok)
+    (ht : t ∈ (run env govProg).2.outer) (hn : t.name = "handler") :
+    ∃ p, p < env.iters 1 0 ∧ GovAllOkP env p (env.iters 2 p) ∧
+      p * env.stride ≤ t.iter ∧ t.iter < p * env.stride + env.iters 2 p := by
+  rw [(gov_block env hok).2] at ht
+  exact handler_in_block env t hn _ ht
+
+/-- … and when every handler of a passed proposal succeeds, every handler write IS committed, in order -/
+theorem proposal_success_outcome (env : Env) (p : Nat)
+    (hpass : env.cond "EndBlocker: passes #2" p = true) (hmsgs : env.ok "proposal.GetMsgs" p = true)
+    (hall : GovAllOkP env p (env.iters 2 p)) :
+    ∀ t, t ∈ toks "handler" (env.iters 2 p) (p * env.stride) → t ∈ govContribution env p := by
+  intro t ht
+  simp [govContribution, hpass, hmsgs, hall, ht]
+
+/-- the block outcome for ANY state type and ANY writes of every leaf -/
+theorem proposal_block_outcome_denote {S : Type} (eff : Eff S) (cond : String → Nat → Bool) (iters : Nat → Nat → Nat)
+    (stride : Nat) (s : S) (hok : GovOuterOk (eff.env cond iters stride)) :
+    denote eff (run (eff.env cond iters stride) govProg).2.outer s =
+      denote eff (govBlock (eff.env cond iters stride) (iters 1 0)) s := by
+  rw [(gov_block _ hok).2]
+  rfl
+
+/-- **the executeClaim precompile** (`ExecuteClaimMethod.Run`): the keeper's `ExecuteClaim` runs inside a statedb native
+action (a snapshot that is reverted when the closure returns an error), so when the claim fails HARD (an error is
+returned: unknown token after earlier credits, sender is a module account, failing refund, …) NOTHING is written — the
+claim stays pending, no credit — and `Run` returns the error (the EVM transaction fails) -/
+theorem execute_claim_precompile_outcome (env : Env) (hp : NoPanic env) : XcGood env (run env executeClaimPrecompileProg) :=
+  xc_total env hp
+
+theorem execute_claim_precompile_failure (env : Env) (hp : NoPanic env)
+    (hfail : env.ok "crosschainKeeper.ExecuteClaim" 0 = false) :
+    (run env executeClaimPrecompileProg).1 = .ret false ∧ (run env executeClaimPrecompileProg).2.outer = [] := by
+  rcases xc_total env hp with h | ⟨h, _⟩
+  · exact h
+  · simp [hfail] at h
 
 /-- **IBC packet, transfer application or follow-up fails** — error acknowledgement of the transfer application, failing
 `IBCCoinToEvm`, failing `CallEVM`, VM error of any kind: core `RecvPacket` returns nil and the outer context carries
@@ -355,7 +412,7 @@ theorem ibc_recv_failure_outcome_prog (env : Env) (hp : NoPanic env)
     (run env recvPacketProg).1 = .ret true ∧ (run env recvPacketProg).2.outer = ibcDesignated :=
   ibc_fail env hp hsync hsync' hw hfail
 
-theorem ibc_recv_failure_outcome_denote {S : Type} (eff : Eff S) (cond : String → Nat → Bool) (iters : Nat → Nat)
+theorem ibc_recv_failure_outcome_denote {S : Type} (eff : Eff S) (cond : String → Nat → Bool) (iters : Nat → Nat → Nat)
     (s : S) (hp : ∀ name i, (eff name i).panics = false)
     (hsync : cond "RecvPacket: ack != nil" 0 = true) (hsync' : cond "RecvPacket: ack == nil" 0 = false)
     (hw : (eff "k.ChannelKeeper.WriteAcknowledgement" 0).failAt = none)
@@ -366,43 +423,6 @@ theorem ibc_recv_failure_outcome_denote {S : Type} (eff : Eff S) (cond : String 
   rw [h.2]
 
 /-! ### complete outcome of every boundary: either nothing failed and everything is committed, or exactly the designated outcome -/
-
-/-- **passed proposal, every path**: the messages cannot be unpacked (status failed, nothing executed); or ALL `n`
-handlers succeed (status passed, the `n` handler writes committed in order, proposal stored, hook); or SOME message
-fails — whichever index, by error or panic — and the outcome is status failed + proposal stored + hook, nothing else -/
-theorem proposal_outcome_total (env : Env) (hp : ∀ n i, n ≠ "handler" → env.panics n i = false)
-    (hset : env.ok "keeper.SetProposal" 0 = true) : GovOutcome env (run env govProg) :=
-  gov_total env hp hset
-
-/-- the quantifier of the property, literally: the failure provoked at ANY message index `k < n` (first, middle, last),
-by a returned error or by a panic, whatever the other messages do -/
-theorem proposal_failure_at_any_index (env : Env) (hp : ∀ n i, n ≠ "handler" → env.panics n i = false)
-    (hset : env.ok "keeper.SetProposal" 0 = true) (hmsgs : env.ok "proposal.GetMsgs" 0 = true)
-    (k : Nat) (hk : k < env.iters 1) (hfail : env.ok "handler" k = false ∨ env.panics "handler" k = true) :
-    (run env govProg).1 = .ret true ∧ (run env govProg).2.outer = govDesignated env := by
-  have h := gov_total env hp hset
-  have hno : ¬ GovAllOk env (env.iters 1) := by
-    intro hall
-    have := hall k hk
-    rcases hfail with hf | hf <;> simp [hf] at this
-  obtain ⟨h1, h2⟩ := h
-  refine ⟨h1, ?_⟩
-  rcases h2 with ⟨hm, _⟩ | ⟨_, hall, _⟩ | ⟨_, _, ho, _⟩
-  · simp [hmsgs] at hm
-  · exact absurd hall hno
-  · exact ho
-
-/-- … and when every handler succeeds, every handler write IS committed (the cache is not simply dropped) -/
-theorem proposal_success_outcome (env : Env) (hp : ∀ n i, n ≠ "handler" → env.panics n i = false)
-    (hset : env.ok "keeper.SetProposal" 0 = true) (hmsgs : env.ok "proposal.GetMsgs" 0 = true)
-    (hall : GovAllOk env (env.iters 1)) :
-    (run env govProg).1 = .ret true ∧ (run env govProg).2.outer = govSuccess env := by
-  obtain ⟨h1, h2⟩ := gov_total env hp hset
-  refine ⟨h1, ?_⟩
-  rcases h2 with ⟨hm, _⟩ | ⟨_, _, ho, _⟩ | ⟨_, hno, _⟩
-  · simp [hmsgs] at hm
-  · exact ho
-  · exact absurd hall hno
 
 /-- **inbound bridge call, every path** (the claim is a pending bridge call, the sender is not a module account, the
 refund calls succeed): a credit on the outer context fails (the native action returns the error and is reverted as a
@@ -425,8 +445,8 @@ theorem bridge_call_in_conversion_failure_at_any_index (env : Env) (hp : NoPanic
     (ht2 : env.cond "ExecuteClaim: externalClaim.(type) is *types.MsgBridgeCallClaim" 0 = true)
     (hmod : env.ok "k.ak.GetAccount" 0 = true ∨ env.cond "Keeper.BridgeCallHandler: ok" 0 = false)
     (hs : env.ok "k.bankKeeper.SendCoins" 0 = true) (ha : env.ok "k.AddOutgoingBridgeCall" 0 = true)
-    (hcred : BciAll1 env (env.iters 1))
-    (k : Nat) (hk : k < env.iters 2) (hfail : env.ok "k.BaseCoinToEvm" k = false) :
+    (hcred : BciAll1 env (env.iters 1 0))
+    (k : Nat) (hk : k < env.iters 2 0) (hfail : env.ok "k.BaseCoinToEvm" k = false) :
     (run env executeClaimProg).1 = .ret true ∧ (run env executeClaimProg).2.outer = bciDesignated env := by
   have hcf : bciCachedFails env := Or.inl (fun hall => by have := hall k hk; simp [hfail] at this)
   rcases bci_total env hp hfound ht1 ht2 hmod hs ha with ⟨hno, _⟩ | ⟨_, h1, h2⟩
@@ -443,7 +463,7 @@ theorem bridge_call_in_vm_error_of_any_kind (env : Env) (hp : NoPanic env)
     (ht2 : env.cond "ExecuteClaim: externalClaim.(type) is *types.MsgBridgeCallClaim" 0 = true)
     (hmod : env.ok "k.ak.GetAccount" 0 = true ∨ env.cond "Keeper.BridgeCallHandler: ok" 0 = false)
     (hs : env.ok "k.bankKeeper.SendCoins" 0 = true) (ha : env.ok "k.AddOutgoingBridgeCall" 0 = true)
-    (hcred : BciAll1 env (env.iters 1))
+    (hcred : BciAll1 env (env.iters 1 0))
     (hc : env.cond "Keeper.BridgeCallEvm: k.evmKeeper.IsContract(ctx, to)" 0 = true)
     (hfail : env.ok "k.evmKeeper.CallEVM" 0 = false ∨ env.evm "k.evmKeeper.CallEVM" 0 ≠ .ok) :
     (run env executeClaimProg).1 = .ret true ∧ (run env executeClaimProg).2.outer = bciDesignated env := by
@@ -491,7 +511,7 @@ open FxVerif.Model.C18P FxVerif.Proofs.C18P
 
 -- success paths commit everything
 example : (run envOk executeClaimProg).2.failed = [] ∧ (run envOk executeClaimProg).2.outer = bciSuccess envOk := by decide
-example : (run envOk govProg).2.outer = govSuccess envOk := by decide
+example : ((run envOk govProg).2.outer.filter (fun t => t.name == "handler")).length = 9 := by decide  -- 3 proposals x 3 messages
 example : (run envOk recvPacketProg).2.outer = ibcSuccess envOk := by decide
 -- every failure kind of the property's quantifier sets the ghost flag, i.e. the hypotheses of the theorems are satisfiable
 example : 1 ∈ (run (failAt envOk "k.BaseCoinToEvm" 0) executeClaimProg).2.failed := by decide
@@ -503,10 +523,14 @@ example : 1 ∈ (run (vmErr envOk "k.evmKeeper.CallEVM" .invalidOpcode) executeC
 example : 1 ∈ (run (vmErr envOk "k.evmKeeper.CallEVM" .insufficientBalance) executeClaimProg).2.failed := by decide
 example : 1 ∈ (run (failAt envOk "k.evmKeeper.CallEVM" 0) executeClaimProg).2.failed := by decide
 example : (run (vmErr envOk "k.evmKeeper.CallEVM" .outOfGas) executeClaimProg).2.outer = bciDesignated envOk := by decide
-example : 1 ∈ (run (failAt envOk "handler" 0) govProg).2.failed := by decide
-example : 1 ∈ (run (failAt envOk "handler" 1) govProg).2.failed := by decide
-example : 1 ∈ (run (panicAt envOk "handler" 2) govProg).2.failed := by decide
-example : (run (panicAt envOk "handler" 1) govProg).2.outer = govDesignated envOk := by decide
+-- the middle proposal (index 1: messages 10, 11, 12) fails at its first / middle / last message, by error or panic:
+-- only the six handler writes of proposals 0 and 2 survive, whatever the position
+example : ((run (failAt envOk "handler" 10) govProg).2.outer.filter (fun t => t.name == "handler")).map (·.iter) = [0, 1, 2, 20, 21, 22] := by decide
+example : ((run (failAt envOk "handler" 11) govProg).2.outer.filter (fun t => t.name == "handler")).map (·.iter) = [0, 1, 2, 20, 21, 22] := by decide
+example : ((run (panicAt envOk "handler" 12) govProg).2.outer.filter (fun t => t.name == "handler")).map (·.iter) = [0, 1, 2, 20, 21, 22] := by decide
+example : ((run (failAt envOk "handler" 0) govProg).2.outer.filter (fun t => t.name == "handler")).map (·.iter) = [10, 11, 12, 20, 21, 22] := by decide
+example : (run (failAt envOk "crosschainKeeper.ExecuteClaim" 0) executeClaimPrecompileProg).2.outer = [] := by decide
+example : (run envOk executeClaimPrecompileProg).2.outer = [⟨"crosschainKeeper.ExecuteClaim", 0, []⟩] := by decide
 example : 2 ∈ (run (vmErr envOk "k.evmKeeper.CallEVM" .revert) recvPacketProg).2.failed := by decide
 example : 2 ∈ (run (vmErr envOk "k.evmKeeper.CallEVM" .outOfGas) recvPacketProg).2.failed := by decide
 example : 2 ∈ (run (failAt envOk "k.crossChainKeeper.IBCCoinToEvm" 0) recvPacketProg).2.failed := by decide
